@@ -1,4 +1,4 @@
-CONSTANTS Paths = {"sha", "s.ha", "x/sha", "crypto/sha1", "md", "m-d", "crypto/md5", "encoding/asn1", "asn"}
+CONSTANTS Paths = {"sha", "s.ha", "x/sha", "crypto/sha1", "md", "m-d", "crypto/md5", "encoding/asn1", "asn", "y/md1"}
  Self = "self.io/me"
  MaxSteps = 3
  LastKinds = {"ref"}
